@@ -371,6 +371,22 @@ static Result run_box(const Case &c) {
             DecodeOut o = decode(d, fset, s.fraglen, 0);
             if (o.rc == 0) { if (o.out != data) r.fail("decode with " + std::to_string(e) + " erasures returned wrong data"); }
             else if (demand) r.fail("decode with " + std::to_string(e) + " erasures (within tolerance) failed rc=" + std::to_string(o.rc));
+            if (len == lens[2]) {
+                // valid caller buffers need not be 16-byte aligned: the same decode with every survivor at 8 mod 16, and
+                // at an odd address
+                std::vector<uint8_t> data2((size_t)g.k * 64 + 3);      // payloads long enough for the vector kernels
+                for (size_t i = 0; i < data2.size(); i++) data2[i] = (uint8_t)(i * 37 + 11);
+                Stripe s2 = encode(d, g, data2);
+                if (s2.rc != 0) r.fail("encode failed rc=" + std::to_string(s2.rc));
+                else for (int off : {8, 1 + (g.k + g.m) % 15}) {
+                    std::vector<const std::vector<uint8_t> *> fr2;
+                    for (int i = e; i < n; i++) fr2.push_back(&s2.frags[i]);
+                    FragSet fa; fa.build(fr2, std::vector<int>(fr2.size(), off));
+                    DecodeOut oa = decode(d, fa, s2.fraglen, 0);
+                    if (oa.rc == 0) { if (oa.out != data2) r.fail("decode from buffers at offset " + std::to_string(off) + " returned wrong data"); }
+                    else if (demand) r.fail("decode from buffers at offset " + std::to_string(off) + " failed rc=" + std::to_string(oa.rc));
+                }
+            }
             if (e >= 1) {
                 FragSet f2; f2.build(frs, {});
                 ReconOut ro = reconstruct(d, f2, s.fraglen, 0);
